@@ -158,7 +158,7 @@ class C10History:
                             self.fired.get('errno'),
                             site_of(self.fired['event']), diff),
                         self.feats({'victim-reports-success',
-                                    'victim=' + how} |
+                                    'victim=' + how.split(':')[0]} |
                                    {'stale:' + os.path.basename(d)
                                     for d in diff}), idx))
                 else:
@@ -179,7 +179,7 @@ class C10History:
                         'generated {} was modified'.format(
                             fault.get('what'), bf),
                         self.feats({'fault=script:' + fault.get('what', ''),
-                                    'victim=' + how}), idx))
+                                    'victim=' + how.split(':')[0]}), idx))
         elif k == 'attempt':
             how = op[1]
             fault = op[2] if len(op) > 2 else None
